@@ -330,6 +330,30 @@ def sequence_check(spec):
     return []
 
 
+def omitted_theta_check(spec):
+    """jtj(theta) evaluated; somebody else (a second loss object, the user) gives the shared model other values for the parameters
+    this loss object estimates; jtj() with theta omitted: the Gauss-Newton matrix at the loss object's OWN theta (the last one it
+    was given).  -> list of (cls, what)"""
+    tgt = spec.get("target") or list(spec["params"])
+    try:
+        L, th = build_loss(spec)
+        L.jtj(th)
+        L._ode.parameters = {p: spec["theta"][spec["params"].index(p)] * 1.3 + 0.1 for p in tgt}
+        J2 = np.asarray(L.jtj(), dtype=float)
+    except Exception as e:      # noqa: B902
+        return [("jtj-omitted-theta-raises", "jtj(theta); model.parameters = {...}; jtj() raised %s: %s" % (type(e).__name__, e))]
+    try:
+        R = c20ref.curvature(ref_spec(spec))
+    except RuntimeError:
+        return []
+    sc = 1 + float(np.abs(R["jtj"]).max())
+    if not close(J2, R["jtj"], TOL, sc):
+        return [("jtj-omitted-theta-follows-shared-model", "jtj(theta) evaluated, the shared model given other values for %s, then jtj() with "
+                 "theta omitted: max deviation from the Gauss-Newton matrix at the loss object's own theta %.3g (scale %.3g)"
+                 % (tgt, float(np.abs(J2 - R["jtj"]).max()) if J2.shape == R["jtj"].shape else float("nan"), sc))]
+    return []
+
+
 # ====================================================================== search
 # past failing inputs, always first.  x' = -x^2 + theta (complete: the second-order system is exact) shows the sign of
 # the residual-curvature term; SIR-like p*x*y is the recorded mixed-terms finding.
@@ -355,6 +379,9 @@ CORPUS = [
     dict(states=["x", "y"], params=["a", "b"], eqs=["a+y-x*x*x", "b-x-3*y/10"], theta=[0.5, 0.3], x0=[0.0, 0.4],
          times=[0.5, 1.0, 1.5, 2.0], obs=["x", "y"], target=None, weights=None, weight_kind="none",
          y=[[0.45, 0.35], [0.6, 0.2], [0.9, 0.1], [0.7, 0.05]]),
+    # a non-linear core (x, y) feeding a chain of two linear compartments (z, w), declared downstream first; the far end observed
+    dict(states=["w", "z", "x", "y"], params=["a", "b"], eqs=["z-w", "y-z", "a-x*y", "b+x*y-y"], theta=[0.5, 0.3], x0=[0.2, 0.4, 0.9, 0.5],
+         times=[0.5, 1.0, 1.5, 2.0], obs=["w"], target=None, weights=None, weight_kind="none", y=[[0.5], [0.3], [0.6], [0.2]]),
     # one observed state, per-observation weights as a flat vector
     dict(states=["x", "y"], params=["a", "b"], eqs=["-x*y+a", "x*x-y*y+b"], theta=[0.5, 0.3], x0=[0.9, 0.5],
          times=[0.5, 1.0, 1.5, 2.0], obs=["y"], target=None, weights=[1.0, 2.0, 3.0, 0.5], weight_kind="flat",
@@ -397,6 +424,10 @@ def run_search(ck):
         ck.case(dict(kind="jtj-sequence", spec=spec), nontrivial=True)
         for cls, what in sequence_check(spec):
             ck.violation(cls, what, dict(kind="jtj-sequence", spec=spec, cls=cls))
+    for spec in specs[:ck.budget(8, 40)]:
+        ck.case(dict(kind="jtj-omitted-theta", spec=spec), nontrivial=True)
+        for cls, what in omitted_theta_check(spec):
+            ck.violation(cls, what, dict(kind="jtj-omitted-theta", spec=spec, cls=cls))
     ck.notes["search_sequence_cases"] = len(seq_specs)
     for spec in specs:
         V, info = check_spec(spec, with_fd=True)
@@ -459,6 +490,9 @@ def replay(ck, data):
         return ("[%s/second-evaluation] %s" % V[0]) if V else None
     if inp.get("kind") == "jtj-sequence":
         V = sequence_check(inp["spec"])
+        return ("[%s] %s" % V[0]) if V else None
+    if inp.get("kind") == "jtj-omitted-theta":
+        V = omitted_theta_check(inp["spec"])
         return ("[%s] %s" % V[0]) if V else None
     if inp.get("kind") == "jtj-direct":
         W = np.array(inp["W"]).reshape(inp["n"], inp["ns"])
